@@ -182,3 +182,52 @@ PROPS["C17"] = {
         "note": "Trusted: Lean kernel; fact extractor; harness. LastResult/LastError visibility and time monotonicity are validated by DIFF/stress only.",
         "technique": "Lean 4 proof (inductive invariant over layers and policy lists) + structural facts + differential correspondence"},
 }
+
+PROPS["C01"] = {
+    "props": "Failsafe.Props.C01", "ties": ["Failsafe.Tie.Classify"],
+    "kernels": ["with_done", "with_failure", "is_failure"],
+    "facts": COMPOSE_FACTS + ["bodies/executor:executor.execute", "bodies/policyexecutor:BaseExecutor.Apply", "bodies/policyexecutor:BaseExecutor.PostExecute",
+                              "effects/retryexecutor:executor.Apply", "effects/circuitbreakerexecutor:executor.PreExecute", "effects/bulkheadexecutor:executor.PreExecute",
+                              "effects/bulkheadexecutor:executor.PostExecute", "effects/ratelimiterexecutor:executor.Apply", "effects/timeoutexecutor:executor.Apply",
+                              "effects/hedgeexecutor:executor.Apply", "effects/fallbackexecutor:executor.Apply", "effects/cacheexecutor:executor.PreExecute"],
+    "required_theorems": ["Failsafe.Props.C01.execute_is_nesting", "Failsafe.Props.C01.layer_done", "Failsafe.Props.C01.caller_gets_outermost",
+                          "Failsafe.Props.C01.rejecting_layer_ignores_inner", "Failsafe.Props.C01.applyPolicy_done"],
+    "diff": [COMPOSE_DIFF], "rule": COMPOSE_RULE, "assumptions": COMPOSE_ASSUME, "modelled": COMPOSE_MODELLED,
+    "manifest": {
+        "text": "Lean 4 theorems over the sequential composition model of all eight policies: the composition loop is the nesting P1(P2(...Pn(fn))) for every policy list with repetition (execute_is_nesting); every layer boundary of every stack returns a finished result (layer_done, induction over the list; retry and hedge by induction on their loops); the caller receives exactly the outermost layer's result and the completion listeners report its SuccessAll (caller_gets_outermost); a rejecting breaker / bulkhead / rate limiter returns its own result whatever is inside it (the function is invoked only when every enclosing policy admits). Per-policy behaviour over an arbitrary inner layer is in C02/C10/C11/C16/C17. Tie: FACTS (composition loop, effect order of every executor), GEN (flag algebra, IsFailure), DIFF of random stacks of the real policies against the model (result, error tree, verdict, invocations, statistics, full event log, world).",
+        "note": "Trusted: Lean kernel; translator/fact extractor; harness. Timeout and hedge are covered for deterministic timed scripts (instant or block-until-cancelled outcomes); their racing schedules are C07/C09. The refinement of the three result flags to a single flag-free verdict is validated by DIFF, not yet proved for the full model.",
+        "technique": "Lean 4 proof (induction over policy lists, per-layer lemmas over arbitrary inner layers) + structural facts + differential correspondence"},
+}
+PROPS["C02"] = {
+    "props": "Failsafe.Props.C02", "ties": ["Failsafe.Tie.Classify"],
+    "kernels": ["is_failure", "is_abortable", "with_done", "with_failure"],
+    "facts": COMPOSE_FACTS + ["bodies/retryexecutor:executor.OnFailure", "bodies/retryexecutor:executor.Apply", "bodies/retry:retryPolicy.ToExecutor",
+                              "bodies/retry:config.Build", "effects/retry:config.allowsRetries"],
+    "required_theorems": ["Failsafe.Props.C02.retry_budget", "Failsafe.Props.C02.budget_fresh", "Failsafe.Props.C02.retry_stops_on_success",
+                          "Failsafe.Props.C02.retry_final_result", "Failsafe.Props.C02.retry_abort_stops", "Failsafe.Props.C02.retry_exhausted_passthrough",
+                          "Failsafe.Props.C02.retryOnFailure_failed", "Failsafe.Props.C02.retryOnFailure_exceeded", "Failsafe.Props.C02.retryOnFailure_not_done"],
+    "diff": [COMPOSE_DIFF], "rule": COMPOSE_RULE, "assumptions": COMPOSE_ASSUME,
+    "modelled": COMPOSE_MODELLED + ["max duration (elapsed-time exhaustion) is not part of the sequential model; its decision expression is pinned by the body fact of OnFailure and the clamp by C13",
+                                    "concurrent executions sharing one policy: the executor state is per execution by construction (ToExecutor body fact); schedules are sampled by the C14 stress run"],
+    "manifest": {
+        "text": "Lean 4 theorems about the retry layer for an arbitrary inner layer: with maxRetries = m >= 0 the executor counts at most m+1 failures per execution and is exhausted once the count passes m (inductive invariant Budget over the loop, any fuel), so it re-invokes what it wraps at most m times; a non-failure ends the loop at once unchanged; an abort match ends it; the final result is ExceededError{last result, last error} when exhausted (the last outcome itself with ReturnLastFailure), else the stopping outcome unchanged; an exhausted executor passes inner results through; every execution starts from an empty executor state. Tie: FACTS (bodies of OnFailure, Apply, ToExecutor, Build), GEN (IsFailure, IsAbortable, flag algebra), DIFF of random stacks incl. nested retries, maxRetries in {0,1,2,3,-1}, overlapping handle/abort conditions.",
+        "note": "Trusted: Lean kernel; translator/fact extractor; harness. Max duration is not in the sequential model (body fact + C13). Concurrency clause rests on the per-execution executor (FACTS) and the C14 stress run.",
+        "technique": "Lean 4 proof (inductive invariant over the retry loop, arbitrary inner layer) + structural facts + differential correspondence"},
+}
+PROPS["C16"] = {
+    "props": "Failsafe.Props.C16", "ties": [],
+    "kernels": [],
+    "facts": COMPOSE_FACTS + ["effects/retryexecutor:executor.OnFailure", "effects/retryexecutor:executor.Apply", "effects/circuitbreaker:circuitBreaker.transitionTo",
+                              "effects/bulkheadexecutor:executor.PreExecute", "effects/ratelimiterexecutor:executor.Apply", "effects/timeoutexecutor:executor.Apply",
+                              "effects/fallbackexecutor:executor.Apply", "effects/hedgeexecutor:executor.Apply", "effects/cacheexecutor:executor.PreExecute",
+                              "effects/cacheexecutor:executor.PostExecute"],
+    "required_theorems": ["Failsafe.Props.C16.one_done_one_verdict", "Failsafe.Props.C16.retry_onFailure_events", "Failsafe.Props.C16.retry_scheduled_eq_started",
+                          "Failsafe.Props.C16.bulkhead_onFull_iff", "Failsafe.Props.C16.limiter_event_iff", "Failsafe.Props.C16.breaker_events_connected"],
+    "diff": [COMPOSE_DIFF], "rule": COMPOSE_RULE, "assumptions": COMPOSE_ASSUME,
+    "modelled": COMPOSE_MODELLED + ["'at most once' for OnAbort/OnRetriesExceeded is per entry of the retry layer (an outer retry re-entering an inner retry is a new occurrence)",
+                                    "concurrent executions sharing listeners are sampled by the C14 stress run"],
+    "manifest": {
+        "text": "Lean 4 theorems over the event log of the composition model: every execution ends with exactly one verdict event matching SuccessAll of the returned result followed by exactly one OnDone; per handled failure the retry policy emits OnFailure, OnAbort iff abort-matching, OnRetriesExceeded iff exhausted and not an abort, never both; OnRetryScheduled and OnRetry counts grow together for any inner layer (induction over the loop); OnFull / OnRateLimitExceeded fire exactly on rejection; cache/fallback/timeout events per C11/C10; breaker state-change events form a connected path (C03). Tie: FACTS (guarded effect order of every executor), DIFF recording every listener the builders expose into one ordered log with sampled statistics.",
+        "note": "Trusted: Lean kernel; fact extractor; harness.",
+        "technique": "Lean 4 proof (event-log invariants, induction over the retry loop) + structural facts + differential correspondence"},
+}
